@@ -20,8 +20,8 @@
 EXTENDS MC_ZLoadEnv
 
 CONSTANT NSess
-VARIABLES sess, pos, app, strict, lenient
-sesvars == <<sess, pos, app, strict, lenient>>
+VARIABLES sess, pos, app, strict, lenient, leakused
+sesvars == <<sess, pos, app, strict, lenient, leakused>>
 
 Sess == TFile.sessions
 
@@ -39,11 +39,22 @@ DigestLeaked(a, b, imported) ==
   /\ ImplSet(a) \subseteq ImplSet(b)
   /\ \A p \in ImplSet(b) \ ImplSet(a) : p[2] \in imported
 
+(* Deviation LeakImplementer (finding D9): the abstract types of the        *)
+(* application schema are shared with the per-load schema, so the          *)
+(* implementer names registered by earlier loads are still there.  The     *)
+(* schema as the code then sees it: every abstract type lists what the     *)
+(* digest taken before this load lists.                                    *)
+ImplOf(dig, n) == {p[2] : p \in {q \in ImplSet(dig) : q[1] = n}}
+LeakedSchema(S, dig) ==
+  [S EXCEPT !.types = [n \in DOMAIN S.types |->
+                         IF S.types[n].abstract THEN [S.types[n] EXCEPT !.impl = @ \cup ImplOf(dig, n)]
+                         ELSE S.types[n]]]
+
 ImportedNames == UNION {DOMAIN MCPackages[p].types : p \in {q \in DOMAIN MCPackages : MCPackages[q].ok}}
 
 Init == \E s \in 1..NSess :
           /\ sess = s /\ pos = 0 /\ app = Sess[s].digest0
-          /\ strict = "accepted" /\ lenient = "accepted"
+          /\ strict = "accepted" /\ lenient = "accepted" /\ leakused = FALSE
 
 SStep == Sess[sess].steps[pos + 1]
 
@@ -53,10 +64,13 @@ SessLoad ==
          o == Load(MCSchemas[MCScnSchema(j)], MCScnMain(j), MCScnOpts(j)).out
          c == IF ~SameLogged(o, SStep.out) THEN "outcome-depends-on-history"
               ELSE IF ~DigestSame(app, SStep.digest) THEN "schema-changed" ELSE "accepted"
-         l == IF ~SameLogged(o, SStep.out) THEN "outcome-depends-on-history"
+         oleak == Load(LeakedSchema(MCSchemas[MCScnSchema(j)], app), MCScnMain(j), MCScnOpts(j)).out
+         l == IF ~SameLogged(o, SStep.out) /\ ~SameLogged(oleak, SStep.out) THEN "outcome-depends-on-history"
               ELSE IF ~DigestLeaked(app, SStep.digest, ImportedNames) THEN "schema-changed" ELSE "accepted"
      IN  /\ strict' = IF strict # "accepted" THEN strict ELSE c
          /\ lenient' = IF lenient # "accepted" THEN lenient ELSE l
+         \* the recorded outcome is the one of the schema with the leaked implementer names, not of the schema proper
+         /\ leakused' = (leakused \/ (~SameLogged(o, SStep.out) /\ SameLogged(oleak, SStep.out)))
   /\ pos' = pos + 1 /\ app' = SStep.digest /\ UNCHANGED sess
 
 SessMutate ==
@@ -65,11 +79,11 @@ SessMutate ==
                ELSE IF ~DigestSame(app, SStep.digest) THEN "schema-changed-by-mutation" ELSE "accepted"
   /\ lenient' = IF lenient # "accepted" THEN lenient
                 ELSE IF ~DigestSame(app, SStep.digest) THEN "schema-changed-by-mutation" ELSE "accepted"
-  /\ pos' = pos + 1 /\ app' = SStep.digest /\ UNCHANGED sess
+  /\ pos' = pos + 1 /\ app' = SStep.digest /\ UNCHANGED <<sess, leakused>>
 
 Next == SessLoad \/ SessMutate
 Spec == Init /\ [][Next]_sesvars
 
 SessDone == pos = Len(Sess[sess].steps)
-Verdict == SessDone => PrintT(ToJson([tid |-> sess, clause |-> strict, lenient |-> lenient]))
+Verdict == SessDone => PrintT(ToJson([tid |-> sess, clause |-> strict, lenient |-> lenient, leakused |-> leakused]))
 =========================================================================
